@@ -19,7 +19,25 @@ ASSUMPTIONS = ["targets of at least 2 nt and vector backbones of at least 2 nt (
 def check_case(ctx, case):
     info = case["info"]
     op = asm.asm_op(case)
+    shadows = []
+    if case.get("shadow"):
+        # the same plasmids, opened elsewhere (another rotation of each file), were typed earlier and their wrappers
+        # are still referenced: what a wrapper reports is about its own record
+        import random
+        r_ = random.Random(case["shadow"])
+        sv = dict(case["vector"], word=gen.rot(case["vector"]["word"], r_.randrange(1, len(case["vector"]["word"]))))
+        sm = [dict(m, word=gen.rot(m["word"], r_.randrange(1, len(m["word"])))) for m in case["mods"]]
+        sop = asm.asm_op(dict(case, vector=sv, mods=sm))
+        ents = impl.build_entities(sop[3], sop[4])
+        for e_ in [ents[0]] + list(ents[1]):
+            try:
+                e_.is_valid() and e_.target_sequence()
+            except Exception:  # noqa
+                pass
+            shadows.append(e_)
+        ctx.note("shadow-wrappers-alive")
     reply, prod, _ = impl.run_asm(op)
+    del shadows
     f = reply.split("\t")
     if f[0] != "ok":
         ctx.fail("a well-formed {} assembly of {} modules fails with {}".format(case["enz"], len(case["mods"]), f[1]), case)
@@ -66,4 +84,6 @@ def run(ctx):
                 if rng.random() < 0.5:
                     e["word"] = e["word"].lower()
             ctx.note("mixed-case-inputs")
+        if rng.random() < 0.2:
+            case["shadow"] = rng.randrange(1, 1 << 30)
         ctx.guard(check_case, case)
